@@ -188,3 +188,79 @@ Example real_prefix_twice :
             serve r "POST" "/v2/users" = RHandler 1%Z [] /\
             serve r "GET" "/v2/v1/users/7" = RNotFound.
 Proof. eexists. vm_compute. repeat split. Qed.
+
+(* (5) seeded change C09-7: "recycle the params maps of search results".  The maps live in slots of a
+   process-wide pool; Search takes a free slot (or a new one) when it binds a variable, ServeHTTP
+   puts the slot back — cleared — when it returns, and the request keeps pointing at it.  A
+   handler that outlives its ServeHTTP (route timeout, kept request) then reads whatever the slot
+   holds now: nothing, or the variables of another request. *)
+From GZ Require Import C09.History.
+
+Record pstate := mkP
+  { pslots : list params;            (* the maps, by slot number *)
+    pfree : list nat;                (* sync.Pool: free slots, last put first *)
+    powner : list (nat * nat);       (* request -> the slot its vars map is *)
+    preads : list (nat * params) }.
+
+Fixpoint set_nth {A} (l : list A) (i : nat) (x : A) : list A :=
+  match l, i with
+  | [], _ => []
+  | _ :: l', O => x :: l'
+  | y :: l', S i' => y :: set_nth l' i' x
+  end.
+
+Definition pstep (r : router) (reqs : list hreq) (st : pstate) (e : hev) : pstate :=
+  match e with
+  | HServe i =>
+    match vars_of r (req_at reqs i) with
+    | [] => st                                            (* addParam never called: no map at all *)
+    | ps =>
+      match pfree st with
+      | k :: free => mkP (set_nth (pslots st) k ps) free ((i, k) :: powner st) (preads st)
+      | [] => mkP (pslots st ++ [ps])%list [] ((i, List.length (pslots st)) :: powner st) (preads st)
+      end
+    end
+  | HReturn i =>                                          (* defer result.Release() *)
+    match lookup_nat i (powner st) with
+    | Some k => mkP (set_nth (pslots st) k []) (k :: pfree st) (powner st) (preads st)
+    | None => st
+    end
+  | HRead i =>
+    match lookup_nat i (powner st) with
+    | Some k => mkP (pslots st) (pfree st) (powner st) ((i, nth k (pslots st) []) :: preads st)
+    | None => st
+    end
+  end.
+
+Definition prun (r : router) (reqs : list hreq) (sched : list hev) : pstate :=
+  fold_left (pstep r reqs) sched (mkP [] [] [] []).
+
+Definition pool_regs : list reg :=
+  [mkReg "GET" "/users/:id/orders/:order" 0%Z; mkReg "GET" "/users/:id/profile/:section" 1%Z].
+Definition pool_reqs : list hreq := [("GET", "/users/alice/orders/42"); ("GET", "/users/bob/profile/settings")].
+
+(* request 0 is answered by the timeout middleware while its handler is parked; request 1 is
+   dispatched; the parked handler reads its variables: it gets request 1's, and after request 1
+   returned too it gets nothing — while its own bindings are {id: alice, order: 42} *)
+Theorem pooled_params_refuted :
+  exists regs reqs sched i ps ps',
+    one_var_name_per_position (table_of regs) = true /\
+    vars_of (router_of false false regs) (req_at reqs i) = [("id", "alice"); ("order", "42")] /\
+    In (i, ps) (preads (prun (router_of false false regs) reqs sched)) /\
+    ps = [("id", "bob"); ("section", "settings")] /\
+    In (i, ps') (preads (prun (router_of false false regs) reqs sched)) /\
+    ps' = [].
+Proof.
+  exists pool_regs, pool_reqs,
+         [HServe 0; HRead 0; HReturn 0; HServe 1; HRead 0; HReturn 1; HRead 0], 0%nat.
+  eexists. eexists. vm_compute. repeat split; auto.
+Qed.
+
+(* today's model on the same schedule: every read is the request's own binding *)
+Example fresh_params_same_schedule :
+  hreads (hrun (router_of false false pool_regs) pool_reqs
+            [HServe 0; HRead 0; HReturn 0; HServe 1; HRead 0; HReturn 1; HRead 0; HRead 1])
+  = [(1%nat, [("id", "bob"); ("section", "settings")]);
+     (0%nat, [("id", "alice"); ("order", "42")]); (0%nat, [("id", "alice"); ("order", "42")]);
+     (0%nat, [("id", "alice"); ("order", "42")])].
+Proof. vm_compute. reflexivity. Qed.
